@@ -159,10 +159,10 @@ def groupSize (n : Nat) : Nat := if n = 0 then 1 else n
   simp [arrCount, List.countP_cons]
 @[simp] theorem arrCount_ret (e t e' : Nat) (b : Bool) (h : List BarEv) :
     arrCount e (.ret t e' b :: h) = arrCount e h := by
-  simp [arrCount, List.countP_cons]
+  simp [arrCount]
 @[simp] theorem leadCount_arrive (e t e' : Nat) (b : Bool) (h : List BarEv) :
     leadCount e (.arrive t e' b :: h) = leadCount e h := by
-  simp [leadCount, List.countP_cons]
+  simp [leadCount]
 @[simp] theorem leadCount_ret (e t e' : Nat) (b : Bool) (h : List BarEv) :
     leadCount e (.ret t e' b :: h) = leadCount e h + (if e' = e ∧ b = true then 1 else 0) := by
   simp [leadCount, List.countP_cons]
